@@ -1017,7 +1017,7 @@ impl<'de> serde::de::Visitor<'de> for DataVisitor<'_> {
             if let Some(mut databuilder) = databuilder {
                 let handle_from_temp_id = if self.dataset.config().strip_temp_ids() {
                     if let BuildItem::Id(s) = &databuilder.id {
-                        resolve_temp_id(s.as_str())
+                        resolve_temp_id(s.as_str(), AnnotationData::temp_id_prefix())
                     } else {
                         None
                     }
